@@ -73,7 +73,13 @@ Definition clauses (c : case) (d : dtx) (a : atx) : list (N * bool) :=
                                     | Some m => bool_decide ((fst kv, m) ∈ from_option id [] (a_metadata a))
                                     | None => true end) (d_metadata d)
                  && (length (from_option id [] (a_metadata a)) =? length (d_metadata d))%nat);
-    (108%N, a_fee a =? d_fee d) ].
+    (108%N, a_fee a =? d_fee d);
+    (* the inline datums on their own: they do not depend on whether an amount falls into C02's classes *)
+    (109%N, negb (length (d_outputs d) =? length (a_outputs a))%nat
+            || forallb (fun p => let (x, y) := p : dout * aout in
+                                 negb (bool_decide (do_addr x = ao_addr y))
+                                 || bool_decide (option_map PlutusData.encode (do_datum x) = ao_datum y))
+                       (zip (d_outputs d) (a_outputs a))) ].
 
 Definition checks (c : case) : list (N * bool) :=
   let m := pipeline c in
